@@ -254,6 +254,10 @@ extern int maximum_files;
    priority-stack and sub-node-table routines, and a read-only copy of the static cache state.
    op = code | detail<<8; READ detail: 0 buffer hit, 1 from write buffer, 2 block load, 3 large; STACK: mode | type<<4 */
 enum { ADFI_VT_READ = 1, ADFI_VT_WRITE, ADFI_VT_FLUSH, ADFI_VT_STACK, ADFI_VT_ADD_CHILD, ADFI_VT_DEL_CHILD, ADFI_VT_OPEN };
+/* free-space manager (C02d): MALLOC detail 0 = entry (length = size asked), 1 = exit (block/offset returned); FREE detail
+   0/1 = the size is resolved (length = bytes freed, 1: it was read from the chunk's tags; data = the end-of-chunk
+   DISK_POINTER), 2 = exit */
+enum { ADFI_VT_MALLOC = 8, ADFI_VT_FREE = 9 };
 typedef struct {
    long long rd_block, rd_file, rd_num, wr_block, wr_file, wr_flush ;
    const char *rd_buf, *wr_buf ;
